@@ -12,7 +12,8 @@
    and of the two queries: contains q  <->  every cell of q is in the region,
                            intersects q <->  some cell of q is in the region.
 
-   The oracle decides the statements about ALL cells by coordinate compression, as
+   The oracle decides the statements about ALL cells by coordinate compression (proved
+   sound in RectSetOracle.v: case_checkb_sound), as
    RectSpec.v does: membership of a cell in each rectangle involved (every input
    rectangle of the history carried along in current coordinates, every reported
    rectangle, the query) is constant on the elementary intervals between consecutive edge
